@@ -36,10 +36,17 @@ Print Assumptions C06_refuted_by_one_query.
 (* a.lua: local x = 1\nlocal x = x + 1\n *)
 Definition w_B1_own_initialiser : list (list N * list N) :=
   [([97; 46; 108; 117; 97], [108; 111; 99; 97; 108; 32; 120; 32; 61; 32; 49; 10; 108; 111; 99; 97; 108; 32; 120; 32; 61; 32; 120; 32; 43; 32; 49; 10])].
-(* a use of n inside the initialiser list of `local ... n ... = ...` resolves to the NEW local when the initialiser node is not a plain name / call / function expression (`local x = 1; local x = x + 1`: the x in `x + 1` jumps to line 2); IsCorrectPosition only protects NameExp/FuncCallExp/FuncDefExp initialisers *)
-Theorem C06_B1_own_initialiser_refuted : refs_deviates MRefs w_B1_own_initialiser [97; 46; 108; 117; 97] 1 10 = true.
+(* B1, FIXED (fixes/C05-own-initialiser.diff): a use of n inside the initialiser list of `local ... n ... = ...` resolved to the
+   NEW local when the initialiser node was not a plain name / call / function expression (`local x = 1; local x = x + 1`:
+   the x in `x + 1` jumped to line 2); IsCorrectPosition only protected NameExp/FuncCallExp/FuncDefExp initialisers.  The
+   declaration now carries the region of its statement's initialiser list (VarInfo.InitLoc) and is invisible from inside it.
+   The witness deviates for the code before the repair (`no_fixes`) and no longer for the code in /repo. *)
+Theorem C06_B1_own_initialiser_refuted_before_fix : refs_deviates_fx no_fixes w_B1_own_initialiser MRefs [97; 46; 108; 117; 97] 1 10 = true.
 Proof. vm_compute. reflexivity. Qed.
-Print Assumptions C06_B1_own_initialiser_refuted.
+Print Assumptions C06_B1_own_initialiser_refuted_before_fix.
+Theorem C06_B1_own_initialiser_fixed : refs_deviates MRefs w_B1_own_initialiser [97; 46; 108; 117; 97] 1 10 = false.
+Proof. vm_compute. reflexivity. Qed.
+Print Assumptions C06_B1_own_initialiser_fixed.
 
 (* a.lua: local i = 9 for i = i, 10 do end\n *)
 Definition w_B2_for_bounds : list (list N * list N) :=
@@ -138,7 +145,7 @@ Print Assumptions C06_same_pos_other_file_fixed.
 
 
 Theorem C06_refs_full_refuted : ~ C06_refs_full.
-Proof. exact (refs_full_refuted_by MRefs _ _ _ _ C06_B1_own_initialiser_refuted). Qed.
+Proof. exact (refs_full_refuted_by MRefs _ _ _ _ C06_B2_for_bounds_refuted). Qed.
 Print Assumptions C06_refs_full_refuted.
 
 (* ---- repaired: for a GLOBAL target (F, g) and EVERY workspace the answer is the definition (where the mode reports
@@ -376,20 +383,20 @@ Proof. exact (refs_request_closed MRefs). Qed.
 Print Assumptions C06_refs_local_partial_closed_file.
 
 (* non-vacuity: C05's two example programs satisfy the whole-file guard (alone and in a two-file workspace): 25 of 33
-   and 36 of 43 occurrences are bound to locals; the guard rejects the witness programs of classes B1, B4 and accepts the
-   one of the repaired class doc_end (the identifier at the very end of the text: ident_at no longer asks for a byte after it);
-   in the B1 program `local x = 1 / local x = x + 1` the per-cursor guard holds on the first declaration (references
-   from there are right: the traversal resolver is not affected by B1) and fails on the tagged use in `x + 1` *)
+   and 36 of 43 occurrences are bound to locals; the guard rejects the witness programs of classes B2, B4 and accepts the
+   ones of the repaired classes doc_end (the identifier at the very end of the text: ident_at no longer asks for a byte after
+   it) and B1 (`local x = 1 / local x = x + 1`); in the B2 program `local i = 9 for i = i, 10 do end` the per-cursor guard
+   holds on the first declaration and fails on the tagged use in the bound *)
 Definition C06_cursor_guard (W : Z) (files : list (list N * list N)) (f : list N) (line col : N) : bool :=
   match spec_occ files f line col with Some o => occ_request_guard W files f o | None => false end.
 Example C06_closed_guard_nonvacuous :
   request_guard 1000 [(a_lua, src_ok)] a_lua = true /\ request_guard 1000 [(a_lua, src_core)] a_lua = true /\
   request_guard 1000 [(a_lua, src_ok); (b_lua, src_core)] b_lua = true /\
   length (filter (fun s => match s_bind s with BLocal _ => true | BGlobal _ => false end) (bind_file (chunk_of src_core))) = 36%nat /\
-  request_guard 1000 [(a_lua, src_init_shadow)] a_lua = false /\ request_guard 1000 [(a_lua, src_forward_decl)] a_lua = false /\
-  request_guard 1000 [(a_lua, src_doc_end)] a_lua = true /\
-  C06_cursor_guard 1000 [(a_lua, src_init_shadow)] a_lua 0 6 = true /\
-  C06_cursor_guard 1000 [(a_lua, src_init_shadow)] a_lua 1 10 = false.
+  request_guard 1000 [(a_lua, src_for_bound)] a_lua = false /\ request_guard 1000 [(a_lua, src_forward_decl)] a_lua = false /\
+  request_guard 1000 [(a_lua, src_doc_end)] a_lua = true /\ request_guard 1000 [(a_lua, src_init_shadow)] a_lua = true /\
+  C06_cursor_guard 1000 [(a_lua, src_for_bound)] a_lua 0 6 = true /\
+  C06_cursor_guard 1000 [(a_lua, src_for_bound)] a_lua 0 20 = false.
 Proof. vm_compute. repeat split; reflexivity. Qed.
 
 (* ================================================================== wide fragment (agent wide-fragment)
